@@ -229,6 +229,19 @@ def originals():
     return _ORIG
 
 
+def fresh_fakesnow(cli=False):
+    """Re-execute fakesnow/__init__.py (and fakesnow/cli.py) so that whatever patch()/main() keep at module level
+    starts fresh: every history begins in a pristine state, and state kept there shows *within* a history."""
+    import fakesnow
+
+    importlib.reload(fakesnow)
+    if cli:
+        import fakesnow.cli
+
+        importlib.reload(fakesnow.cli)
+    core.assert_repo()
+
+
 def force_restore():
     import snowflake.connector as sc
     import snowflake.connector.pandas_tools as pt
@@ -271,6 +284,7 @@ def sandbox(prefix, files):
                 f.write(src)
         importlib.invalidate_caches()
         sys.path.insert(0, d)
+        fresh_fakesnow(cli=True)
         try:
             yield d
         finally:
@@ -354,6 +368,7 @@ class Real:
         self.blocks = []
         force_restore()
         purge_modules()
+        fresh_fakesnow()
         for m in PREIMPORTED:
             importlib.import_module(m)
 
@@ -411,6 +426,9 @@ class Real:
                 self.blocks.append(blk)
             elif self.blocks and probe:
                 obs["outer_conn"] = conn_state(self.blocks[-1]["conn"])
+        elif not self.blocks:
+            obs["skipped"] = True
+            obs["status"] = before
         else:
             blk = self.blocks.pop()
             mode = op[1]
@@ -444,6 +462,8 @@ class Real:
 
 
 def next_state(pre, op, obs):
+    if obs.get("skipped"):
+        return pre
     open_, _lazy, _leaked, last = pre
     st = obs["status"]
     if op[0] == "enter":
@@ -485,6 +505,8 @@ def judge_patch(pre, op, obs, imp=None):
     depth = len(open_)
     st = obs["status"]
     out = []
+    if obs.get("skipped"):
+        return out
     if op[0] == "enter":
         tlid = op[1]
         valid = TARGET_LISTS[tlid][1]
@@ -511,6 +533,10 @@ def judge_patch(pre, op, obs, imp=None):
                     f = obs["func"].get(k)
                     cls, _unlisted = lazy_class(k, lazy, imp)
                     out.append(("C20.inside", cls, s != "other" or f != "ok", {"targets": tlid, "target": k, "identity": s, "used_as_fake": f}))
+                # ... and nothing but its own targets: what was the original before and is not listed stays the original
+                for k, b, s in zip(KINDS, obs["before"], st):
+                    if k not in should and b == "orig":
+                        out.append(("C20.inside.only_own_targets", f"not-listed={k}", s != "orig", {"targets": tlid, "not_listed": k, "identity_inside": s}))
         else:
             cls = "inner=" + ("valid" if valid else "failing")
             out.append(("C20.nested.refused", cls, raised is None, {"outer": list(open_), "inner": tlid}))
@@ -551,21 +577,59 @@ def note_imports(imp, op, obs):
 
 def run_patch_history(hist, op):
     """Replay hist from a pristine state (observing only what is needed to continue), apply op with full probes.
-    -> (pre_state, obs, post_state, imp)   imp: see lazy_class (taken before op)"""
+    -> (pre_state, obs, post_state, imp, trace)   imp: see lazy_class (taken before op); trace: state after each
+    operation of hist"""
     r = Real()
     r.pristine()
     try:
         state = INITIAL
         imp = {}
+        trace = []
         for h in hist:
             h = tuple(h)
             o = r.apply(h, probe=False)
             note_imports(imp, h, o)
             state = next_state(state, h, o)
+            trace.append(state)
         obs = r.apply(tuple(op), probe=True)
-        return state, obs, next_state(state, tuple(op), obs), imp
+        return state, obs, next_state(state, tuple(op), obs), imp, trace
     finally:
         r.cleanup()
+
+
+def divergence(hist, expected_trace, trace):
+    """First operation of hist after which the implementation is not in the state it was in when this history was
+    first executed -> (class, detail) | None.  The class names the operation and the first thing that differs."""
+    for i, (e, g) in enumerate(zip(expected_trace, trace)):
+        e, g = _tuplify(e), _tuplify(g)
+        if e == g:
+            continue
+        if e[0] != g[0]:
+            what = "open-blocks"
+        elif e[1] != g[1]:
+            what = next(k for k, a, b in zip(LAZY_KINDS, e[1], g[1]) if a != b)
+        elif e[2] != g[2]:
+            what = sorted(set(e[2]) ^ set(g[2]))[0]
+        else:
+            what = "last-event"
+        op = hist[i]
+        return f"op={op[0]}:{op[1]},differs={what}", {"step": i, "op": list(op), "state_at_first_visit": e, "state_now": g}
+    return None
+
+
+def record_transition(acc, counter, pre, op, obs, post, imp, hist):
+    acc.count("transitions")
+    acc.count("traces")
+    acc.count("evaluations")
+    acc.count(counter)
+    acc.obs((pre, op, sorted(obs.items())))
+    acc.outcome(("patch", op[0], obs.get("raised"), obs.get("exit_raised"), obs["status"], obs.get("conn"), tuple(sorted((obs.get("func") or {}).items()))))
+    if post != pre:
+        acc.nontrivial(("patch", pre, op))
+    for clause, cls, failed, detail in judge_patch(pre, op, obs, imp):
+        acc.member(clause, cls, failed)
+        if failed:
+            acc.violation(clause, cls, {"pre_state": pre, "op": op, **detail}, {"part": "patch", "history": hist, "op": op})
 
 
 def _tuplify(x):
@@ -573,30 +637,43 @@ def _tuplify(x):
 
 
 def expand_patch(item, acc, tier):
-    state, hist = _tuplify(item[1]), [tuple(h) for h in item[2]]
+    """item = ("patch", state, history, trace): explore every operation enabled in state after replaying history.
+    trace = the states the history went through when it was first executed; if the replay leaves them, the
+    implementation keeps something between histories that the pristine state does not reset (or behaves differently
+    for the same history): that is a verdict (C20.state_after_history), and exploration continues from where it is."""
+    state, hist, exp_trace = _tuplify(item[1]), [tuple(h) for h in item[2]], list(item[3])
     succ = []
     with sandbox("c20p", {f"{m}.py": s for m, s in HELPER_SRC.items()}):
         for op in ops_for(state, tier):
-            pre, obs, post, imp = run_patch_history(hist, op)
-            if pre != state:
-                raise core.HarnessError(f"C20: history {hist} reached {pre}, expected {state} (replay is not deterministic)")
-            acc.count("transitions")
-            acc.count("traces")
-            acc.count("evaluations")
-            acc.count("patch_transitions")
-            ob = {k: v for k, v in obs.items()}
-            acc.obs((state, op, sorted(ob.items())))
-            acc.outcome(("patch", op[0], obs.get("raised"), obs.get("exit_raised"), obs["status"], obs.get("conn"), tuple(sorted((obs.get("func") or {}).items()))))
-            if post != pre:
-                acc.nontrivial(("patch", state, op))
-            for clause, cls, failed, detail in judge_patch(pre, op, obs, imp):
-                acc.member(clause, cls, failed)
-                if failed:
-                    acc.violation(clause, cls, {"pre_state": pre, "op": op, **detail}, {"part": "patch", "history": hist, "op": op})
-            succ.append((post, hist + [op]))
+            pre, obs, post, imp, trace = run_patch_history(hist, op)
+            div = divergence(hist, exp_trace, trace)
+            acc.member("C20.state_after_history", div[0] if div else "same-as-first-visit", bool(div))
+            if div:
+                acc.violation("C20.state_after_history", div[0], dict(div[1], history=hist), {"part": "patch-history", "history": hist, "expected_trace": exp_trace})
+            if obs.get("skipped"):
+                continue
+            record_transition(acc, "patch_transitions", pre, op, obs, post, imp, hist)
+            succ.append((post, hist + [op], trace + [post]))
         if state == INITIAL and not hist:
             acc.sample({"part": "patch", "state": state, "ops_explored": [list(o) for o in ops_for(state, tier)]})
     return succ
+
+
+def work_pairs(item, acc, tier):
+    """Every ordered pair of target lists: a block with list a (left normally if it could be entered), then enter
+    with list b - what patch() remembers of an earlier call must not show in a later one."""
+    a = item[1]
+    n = 0
+    with sandbox("c20q", {f"{m}.py": s for m, s in HELPER_SRC.items()}):
+        for b in target_lists(tier):
+            hist = [("enter", a), ("exit", "normal")]
+            op = ("enter", b)
+            pre, obs, post, imp, _trace = run_patch_history(hist, op)
+            record_transition(acc, "patch_pair_transitions", pre, op, obs, post, imp, hist)
+            n += 1
+        if a == "from-import-connect":
+            acc.sample({"part": "patch-pairs", "first_block": a, "then_enter_each_of": target_lists(tier)})
+    return n
 
 
 # =====================================================================================================================
@@ -974,6 +1051,8 @@ def work(item, acc, tier):
     tag = item[0]
     if tag == "patch":
         return expand_patch(item, acc, tier)
+    if tag == "patch-pairs":
+        return work_pairs(item, acc, tier)
     if tag in ("argv", "argv-short"):
         return work_argv(item, acc, tier)
     if tag == "options":
@@ -1005,23 +1084,40 @@ def run(ctx: core.Ctx):
     ]
     # ---- patch: BFS to fixpoint
     seen = {INITIAL: 1}
-    frontier = [("patch", INITIAL, [])]
+    frontier = [("patch", INITIAL, [], [])]
     depth = 0
     while frontier:
-        res = ctx.pmap(work, frontier, chunk=1, recheck=(depth == 1))
+        res = ctx.pmap(work, frontier, chunk=1, recheck=False)
+        if depth == 1:
+            # determinism re-run (as core.pmap does it), but a difference is a verdict here: the harness has no clock,
+            # no randomness and resets everything it knows of, so the same history behaving differently means the
+            # implementation carries state across histories
+            picks = [frontier[0]] + ([frontier[(ctx.seed * 7919 + 1) % len(frontier)]] if len(frontier) > 1 else [])
+            for it in picks:
+                fps = []
+                for _ in range(2):
+                    a = core.Acc()
+                    work(it, a, tier)
+                    fps.append(a.fingerprint())
+                ctx.determinism.append({"item": core.jsonable(it[:3]), "identical": fps[0] == fps[1]})
+                ctx.acc.member("C20.state_after_history", "rerun-of-same-history-differs", fps[0] != fps[1])
+                if fps[0] != fps[1]:
+                    ctx.acc.violation("C20.state_after_history", "rerun-of-same-history-differs", {"history": it[2]}, {"part": "patch-history", "history": it[2], "expected_trace": it[3]})
         cands = []
         for _item, succ in res:
-            for st, hist in succ:
-                cands.append((_tuplify(st), [tuple(h) for h in hist]))
+            for st, hist, trace in succ:
+                cands.append((_tuplify(st), [tuple(h) for h in hist], _tuplify(trace)))
         cands.sort(key=lambda x: (repr(x[0]), len(x[1]), repr(x[1])))
         keep, last = [], None
-        for st, hist in cands:
+        for st, hist, trace in cands:
             if seen.get(st, 0) < HISTORIES_PER_STATE[tier] and (st, hist) != last:
                 seen[st] = seen.get(st, 0) + 1
-                keep.append(("patch", st, hist))
+                keep.append(("patch", st, hist, list(trace)))
             last = (st, hist)
         frontier = keep
         depth += 1
+    # ---- patch: every ordered pair of target lists (earlier block, later enter)
+    ctx.pmap(work, [("patch-pairs", a) for a in target_lists(tier)], chunk=1)
     for st in seen:
         ctx.acc.add("states", st)
     ctx.acc.counters["patch_max_depth"] = depth
@@ -1061,12 +1157,24 @@ def replay(payload):
         hist = [tuple(h) for h in r["history"]]
         op = tuple(r["op"])
         with sandbox("c20r", {f"{m}.py": s for m, s in HELPER_SRC.items()}):
-            pre, obs, post, imp = run_patch_history(hist, op)
+            pre, obs, post, imp, _trace = run_patch_history(hist, op)
         print("history:", hist, "op:", op)
         print("state before:", pre)
         print("observed:", {k: v for k, v in obs.items()})
         print("state after:", post)
         verdicts = judge_patch(pre, op, obs, imp)
+    elif part == "patch-history":
+        hist = [tuple(h) for h in r["history"]]
+        with sandbox("c20r", {f"{m}.py": s for m, s in HELPER_SRC.items()}):
+            _pre, _obs, _post, _imp, trace = run_patch_history(hist[:-1], hist[-1]) if hist else (None, None, None, None, [])
+            if hist:
+                trace = trace + [_post]
+        print("history:", hist)
+        for h, e, g in zip(hist, r["expected_trace"], trace):
+            print("  after", h, "\n     first visit:", _tuplify(e), "\n     now:        ", g)
+        div = divergence(hist, r["expected_trace"], trace)
+        print("(a divergence caused by what an earlier history of the same process left behind does not show in a fresh process)")
+        verdicts = [("C20.state_after_history", div[0] if div else "same-as-first-visit", bool(div), div[1] if div else {})]
     elif part == "cli":
         argv = tuple(r["argv"])
         with sandbox("c20r", cli_files()) as d:
